@@ -119,6 +119,12 @@ static u64 argval(const char *a) {
     for (int i = 0; i < n; i++) e[-n + i] = a[2 + i];
     return (u64)(e - n);
   }
+  if (pre(a, "c:")) { /* c:K:STR -> STR placed so that its first K bytes end a page and the rest starts the next (both mapped) */
+    u64 k = num(a + 2); const char *q = a + 2; while (*q && *q != ':') q++; if (*q == ':') q++;
+    char *e = edge_page(); if (!e) return 0; char *b = e - 8 * 4096 - k; int i = 0;
+    while (q[i]) { b[i] = q[i]; i++; }
+    b[i] = 0; return (u64)b;
+  }
   if (pre(a, "h:")) { /* struct open_how {flags, mode, resolve} */
     static u64 how[3]; how[0] = num(a + 2); how[1] = 0; how[2] = 0; return (u64)how;
   }
